@@ -78,8 +78,7 @@ func VerifC15BadDecl() {
 func vfPerType_C15(typ string) {
 	g := &vfGen{prefix: "n", depth: 1, listLen: 1, symFlags: true}
 	if vfChoice("nil", 2) == 1 {
-		g.nilField = "*"
-		g.listLen = 0
+		g.nilField = "*" // every optional child missing; lists stay non-empty (go/ast's own Pos() needs e.g. Names[0])
 	}
 	n := g.Node(typ)
 	r := vfRestorerMid()
